@@ -8,7 +8,9 @@ package c10
 //   - a copy taken by the controller goroutine before Commit (controller.CommitCertificateParallel) or after it
 //     (Mempool.FSM = FSM.Copy()) is read and discarded by another goroutine while the next Commit runs;
 //   - CompactAll / Compact / db.Flush run from maintenance goroutines (finishSyncing, MaybeBackup).
-// Store.Copy(), Store.Version(), Reset(), Rollback() are NOT called concurrently with Commit(): the node does not do that.
+// Store.Copy(), Store.Version(), Reset(), Rollback() are NOT called concurrently with Commit(), and a copy is discarded
+// either by its consumer while the Commit it accompanies runs (errgroup in CommitCertificateParallel) or by the
+// controller between commits: that is what the node does.
 
 import (
 	"bufio"
@@ -218,9 +220,11 @@ var pcModel = porcupine.Model{
 }
 
 type copyJob struct {
-	st     lib.StoreI
-	expect uint64
-	when   string
+	st      lib.StoreI
+	expect  uint64
+	when    string
+	discard bool          // the consumer discards the copy (controller/block.go:474); otherwise the controller does, later
+	done    chan struct{} // closed when the consumer is finished with the copy
 }
 
 // concHistory runs one short concurrent history against a fresh store and checks it.
@@ -249,7 +253,7 @@ func concHistory(res *collector, name string, rng *rand.Rand) {
 	)
 	readersLeft.Store(readers)
 	record := func(o concOp) { mu.Lock(); ops = append(ops, o); mu.Unlock() }
-	fail := func(sig string, w map[string]any) { res.Violation(sig, name, w) }
+	fail := func(sig string, w map[string]any) { res.Violation(sig, "^"+name+"$", w) }
 	copies := make(chan copyJob, 64)
 	// pre-draw the writer's choices so that the case is a pure function of the seed
 	type blockPlan struct{ nested, junk, preCopy, postCopy, flush bool }
@@ -269,6 +273,13 @@ func concHistory(res *collector, name string, rng *rand.Rand) {
 		defer wg.Done()
 		defer writerDone.Store(true)
 		defer close(copies)
+		var postJob *copyJob
+		defer func() {
+			if postJob != nil {
+				<-postJob.done
+				postJob.st.Discard()
+			}
+		}()
 		for v := uint64(1); v <= N; v++ {
 			p := plan[v]
 			if p.junk { // speculative work that is thrown away
@@ -300,10 +311,21 @@ func concHistory(res *collector, name string, rng *rand.Rand) {
 					return
 				}
 			}
+			// the copy the mempool kept since the last commit is no longer in use (the controller holds the mempool
+			// lock during a commit) and is discarded by the controller itself
+			if postJob != nil {
+				<-postJob.done
+				postJob.st.Discard()
+				postJob = nil
+			}
+			var preJob *copyJob
 			if p.preCopy {
+				// CommitCertificateParallel: copy (with the block's uncommitted writes), then Commit and the mempool
+				// work on the copy run side by side in an errgroup; the mempool side discards the copy
 				if c, e := st.Copy(); e == nil {
 					c.IncreaseVersion()
-					copies <- copyJob{c, v, "before-commit"}
+					preJob = &copyJob{c, v, "before-commit", true, make(chan struct{})}
+					copies <- *preJob
 				} else {
 					fail("error op=copy phase=concurrent", map[string]any{"err": e.Error()})
 					return
@@ -313,18 +335,24 @@ func concHistory(res *collector, name string, rng *rand.Rand) {
 			for need := int64(v-1) * 6; reads.Load() < need && readersLeft.Load() > 0; {
 				runtime.Gosched()
 			}
+			// the height is published (as the controller swaps in the next FSM) inside the recorded [call, return] interval
 			call := clock.Add(1)
 			_, e := st.Commit()
-			ret := clock.Add(1)
 			if e != nil {
 				fail("error op=commit phase=concurrent", map[string]any{"v": v, "err": e.Error()})
 				return
 			}
 			pub.Store(v)
+			ret := clock.Add(1)
 			record(concOp{Client: 0, Kind: "commit", Call: call, Ret: ret, V: v})
+			if preJob != nil {
+				<-preJob.done // errgroup.Wait()
+			}
 			if p.postCopy {
+				// Mempool.FSM = FSM.Copy(): used by the mempool goroutine until the next commit
 				if c, e := st.Copy(); e == nil {
-					copies <- copyJob{c, v, "after-commit"}
+					postJob = &copyJob{c, v, "after-commit", false, make(chan struct{})}
+					copies <- *postJob
 				} else {
 					fail("error op=copy phase=concurrent", map[string]any{"err": e.Error()})
 					return
@@ -341,6 +369,7 @@ func concHistory(res *collector, name string, rng *rand.Rand) {
 			defer readersLeft.Add(-1)
 			r := rand.New(rand.NewSource(readerSeeds[c]))
 			for n := 0; n < perReader; {
+				call := clock.Add(1) // taken BEFORE the published height is looked at
 				cur := pub.Load()
 				if cur == 0 {
 					if writerDone.Load() {
@@ -354,8 +383,7 @@ func concHistory(res *collector, name string, rng *rand.Rand) {
 					v = 1 + uint64(r.Int63n(int64(cur)))
 				}
 				mode := r.Intn(3)
-				o := concOp{Client: c + 1, Kind: "read", V: v, CurAt: cur, Mode: mode}
-				o.Call = clock.Add(1)
+				o := concOp{Client: c + 1, Kind: "read", V: v, CurAt: cur, Mode: mode, Call: call}
 				ro, e := st.NewReadOnly(v)
 				if e != nil {
 					o.ErrorStr = e.Error()
@@ -389,7 +417,10 @@ func concHistory(res *collector, name string, rng *rand.Rand) {
 			} else if w := wantVec(j.expect); strings.Join(w, "|") != strings.Join(vec, "|") {
 				fail("copy-read-mismatch when="+j.when, map[string]any{"expect_version": j.expect, "got": vec, "want": w, "mode": mode})
 			}
-			j.st.Discard()
+			if j.discard {
+				j.st.Discard()
+			}
+			close(j.done)
 		}
 	}()
 
@@ -505,13 +536,17 @@ func concHistory(res *collector, name string, rng *rand.Rand) {
 						o = &ops[i]
 					}
 				}
-				inflight := false
+				// Commit(v+1) had not returned when the view was requested and Commit(got) had started before it was returned
+				nextPending, gotStarted := false, false
 				for _, c := range commits {
-					if c.V == o.V+1 && c.Call < o.Ret && o.Call < c.Ret {
-						inflight = true
+					if c.V == o.V+1 && o.Call < c.Ret {
+						nextPending = true
+					}
+					if c.V == o.Got && c.Call < o.Ret {
+						gotStarted = true
 					}
 				}
-				if o.Got == o.V+1 && inflight {
+				if o.Got > o.V && nextPending && gotStarted {
 					ahead = append(ahead, *o)
 					continue
 				}
@@ -677,7 +712,15 @@ func parseRaceLogs(paths []string) (blocks int, pairs map[string]string) {
 				}
 			}
 			endSection()
-			sort.Strings(tops)
+			// order the pair by the innermost frame, then by the canopy frame, so that one mechanism has one spelling
+			sort.Slice(tops, func(i, j int) bool {
+				a, b := tops[i], tops[j]
+				ai, bi := a[strings.Index(a, ">")+1:], b[strings.Index(b, ">")+1:]
+				if ai != bi {
+					return ai < bi
+				}
+				return a < b
+			})
 			key := strings.Join(tops, " ")
 			if _, ok := pairs[key]; !ok {
 				pairs[key] = strings.Join(cur[:min(len(cur), 60)], "\n")
@@ -741,8 +784,8 @@ func orchestrate(t *testing.T, run *core.Run) {
 		t.Fatalf("mkdtemp: %v", err)
 	}
 	defer os.RemoveAll(dir)
-	plain := map[string]int{"seq": core.Pick(400, 40000), "nested-probe": core.Pick(40, 400), "conc": core.Pick(50, 3000)}
-	raced := map[string]int{"race": core.Pick(24, 600)}
+	plain := map[string]int{"seq": core.Pick(400, 16000), "nested-probe": core.Pick(40, 200), "conc": core.Pick(50, 1600)}
+	raced := map[string]int{"race": core.Pick(24, 240)}
 	var procs []*childProc
 	start := func(bin string, plan map[string]int, shards int, race bool) {
 		if !planWanted(run, plan) {
@@ -792,7 +835,7 @@ func orchestrate(t *testing.T, run *core.Run) {
 				if m := regexp.MustCompile(`(?m)^(panic|fatal error): (.{0,60})`).FindStringSubmatch(tail); m != nil {
 					kind = regexp.MustCompile(`0x[0-9a-f]+|[0-9]+`).ReplaceAllString(m[2], "N")
 				}
-				run.Violation("crash in-canopy: "+strings.TrimSpace(kind), last, map[string]any{"case": last, "race_build": p.race, "output": tail})
+				run.Violation("crash in-canopy: "+strings.TrimSpace(kind), "^"+last+"$", map[string]any{"case": last, "race_build": p.race, "output": tail})
 				continue
 			}
 			t.Fatalf("worker produced no result (%v), last case %q:\n%s", p.err, last, tail)
@@ -823,7 +866,7 @@ func orchestrate(t *testing.T, run *core.Run) {
 	}
 	sort.Strings(keys)
 	for _, k := range keys {
-		run.Violation("data-race "+k, "race/", map[string]any{"report": pairs[k]})
+		run.Violation("data-race "+k, "^race/", map[string]any{"report": pairs[k]})
 	}
 	// `go test -race` exits non-zero when races were reported; any other failure of a race worker is a harness failure
 	for _, p := range procs {
